@@ -38,9 +38,14 @@ EXPLANATION = ("Theorems about the definitions the driver runs. Definitions: fp/
                "unweighted: rf_zero_iff_topology (rooted) and rf_zero_iff_unrooted_topology (not rooted, >= 3 taxa, any seed position / "
                "child order / bifurcating seed): RF = 0 iff same topology; fpfn_redraw_rooted / fpfn_redraw_unrooted: a re-drawing changes "
                "no unweighted distance against a third tree. Representation, weighted: dist_child_order_rooted, dist_redraw_rooted "
-               "(children reordered + unifurcations inserted with the length split, ROOTED trees; values when both defined). For trees "
-               "that are not rooted the weighted invariance is NOT proved as a statement about trees: dist_child_order_partial and "
-               "dist_seed_move_partial ASSUME that the normalised split lists are duplicate-free and exclude a bifurcating seed. "
+               "(children reordered + unifurcations inserted with the length split, ROOTED trees; values when both defined). Not rooted: "
+               "unrooted_splits_nodup (seed with >= 3 children after encoding, basal collapse included: no two edges share a split), "
+               "lenAt_eq_usum (the driver's split->length function is the per-split table of the tree as drawn), dist_redraw_unrooted "
+               "(any sequence of child reorderings, unifurcation insertions and seed moves - URedraw - changes no weighted value; end "
+               "drawings: seed not bifurcating as drawn, >= 3 children after suppression), dist_child_order_unrooted, dist_seed_move; "
+               "reseed_one_edge_is_invertT ties the seed-move step to C07's model of reseed_at (one edge; deeper targets = iteration, "
+               "not restated). Still excluded for the weighted distances: an end drawing whose seed is bifurcating AS DRAWN (the "
+               "collapse case). dist_child_order_partial / dist_seed_move_partial are kept, superseded. "
                "fpfn_seed_path / rf_zero_seed_move_partial speak about paths between the ENCODED forms and are superseded by "
                "rf_zero_iff_unrooted_topology. Histories (Model/C04State.lean; the driver's `hist` and `sdist` ops execute run / step / "
                "weightedCall / fpfnCall / missingCall on every generated history and the harness compares every answer): "
